@@ -36,6 +36,15 @@ SelfLists == UNION { { [i \in DOMAIN ps |-> P(i, ts[i], ps[i], OriOf(ps[i]))] : 
                      : ps \in SeqsOf(PoolB, 2, 3) }
 SelfConfigs == { Cfg(l, l, kk, <<1, 1>>) : l \in SelfLists, kk \in 1..3 }
 
+\* two DIFFERENT lists with exactly coincident positions: a candidate sits at the query's own complete position (distance
+\* exactly 0) but has its own orientation - all 24 x 24 orientations of the query and of the coincident candidate;
+\* with and without a second query whose coincident partner lives in another tomogram
+SamePosConfigs == { Cfg(<<P(1, 1, <<8, 16, 24>>, ra)>>,
+                        <<P(11, 1, <<24, 16, 40>>, Rx1), P(12, 1, <<8, 16, 24>>, rb)>>, kk, <<1, 1>>) : ra \in All, rb \in All, kk \in {1, 2} }
+                  \cup { Cfg(<<P(1, 1, <<8, 16, 24>>, ra), P(2, 2, <<9, 17, 30>>, Mul(ra, Rz1))>>,
+                            <<P(11, 2, <<8, 16, 24>>, Ry1), P(12, 1, <<8, 16, 24>>, rb), P(13, 2, <<9, 17, 30>>, rb)>>, 2, <<3, 2>>)
+                        : ra \in {Id, Rx1, Mul(Rz1, Rx1)}, rb \in All }
+
 \* numbering that restarts in every tomogram: subtomogram numbers repeat across tomograms and are shared by both lists
 \* (a number identifies a particle only together with its tomogram)
 SidRestart(l) == [i \in DOMAIN l |-> [l[i] EXCEPT !.sid = Cardinality({ j \in 1..i : l[j].t = l[i].t })]]
